@@ -550,3 +550,34 @@ pub mod verif {
         p.coeffs.len()
     }
 }
+
+/// Optional verification-only wrappers around the individual line functions of the two
+/// Miller loops (separate cfg so that the basic hooks keep building if these are refactored).
+#[cfg(john_yu_sm9_core_verif_lines)]
+pub mod verif_lines {
+    use super::*;
+
+    pub fn eval_g_tangent(t: &G2, p: &G1) -> (Fq12, Fq12) {
+        t.eval_g_tangent(p)
+    }
+    pub fn eval_g_line(t: &G2, q: &G2, p: &G1) -> (Fq12, Fq12) {
+        t.eval_g_line(q, p)
+    }
+    pub fn g_tangent(t: &mut G2) -> (Fq2, Fq2, Fq2) {
+        t.g_tangent()
+    }
+    pub fn g_line(t: &mut G2, q: &G2) -> (Fq2, Fq2, Fq2) {
+        t.g_line(q)
+    }
+    pub fn point_pi1(q: &G2) -> G2 {
+        q.point_pi1()
+    }
+    pub fn point_pi2(q: &G2) -> G2 {
+        q.point_pi2()
+    }
+    /// The sparse Fq12 element the prepared Miller loop multiplies by for one coefficient triple.
+    pub fn prepared_line_value(c: &(Fq2, Fq2, Fq2), g1: &G1) -> Fq12 {
+        let t1 = Fq2::new(g1.y, Fq::zero()).mul_by_nonresidue();
+        G2Prepared { coeffs: Vec::new() }.get_fq12(c, &t1, g1.x())
+    }
+}
